@@ -289,9 +289,11 @@ class AbstractDiagram(metaclass=abc.ABCMeta):
         return f"<Diagram {self.name!r}>"
 
     def __html__(self) -> markupsafe.Markup:
+        # ``as_svg`` falls back to an error image if the diagram cannot
+        # be rendered (e.g. because it is missing from the diagram cache)
         return (
             markupsafe.Markup("<figure>")
-            + markupsafe.Markup(self.render("svg"))
+            + markupsafe.Markup(self.__getattr__("as_svg"))
             + markupsafe.Markup("<figcaption>")
             + self.name
             + markupsafe.Markup("</figcaption></figure>")
